@@ -112,6 +112,7 @@ impl Model {
             engine_id: c.engine_id,
             cutoff: CutoffSpec::Default,
             cutoff_set: false,
+            had_noneq_cutoff: false,
             value: None,
             last_run: None,
             last_changed: None,
@@ -259,6 +260,9 @@ impl Model {
             Act::SetCutoff { hid, c } => {
                 self.nodes[*hid].cutoff = *c;
                 self.nodes[*hid].cutoff_set = true;
+                if !c.only_suppresses_equal() {
+                    self.nodes[*hid].had_noneq_cutoff = true;
+                }
                 if !c.only_suppresses_equal() {
                     self.any_noneq_cutoff = true;
                 }
@@ -601,7 +605,9 @@ impl Model {
                     };
                     // a map_ref below us with a cutoff that suppresses unequal values may have
                     // swallowed an earlier change of ours that is only surfacing now
-                    if !c && matches!(s.rk, RK::MapRef { .. } | RK::MapRefQ { .. }) && !s.cutoff.only_suppresses_equal() {
+                    // (any cutoff it has had counts: the swallowed change may date from before a
+                    // later set_cutoff)
+                    if !c && matches!(s.rk, RK::MapRef { .. } | RK::MapRefQ { .. }) && (s.had_noneq_cutoff || !s.cutoff.only_suppresses_equal()) {
                         maybe = true;
                     }
                     c
